@@ -1402,7 +1402,7 @@ func insertHelperRule(ctx *Ctx, r *Result) {
 			case e.Kind == "builtin" && e.Name == "builtin.copy":
 				nCopy++
 				if grown == nil || len(e.Args) != 2 ||
-					e.Args[0].Key() != "slice("+grown.Key()+", bin:+("+I+", 1), _, _)" || e.Args[1].Key() != "slice("+grown.Key()+", "+I+", _, _)" {
+					e.Args[0].Key() != "slice("+grown.Key()+", bin:+("+I+", 1), _, _)" || !insertTailSource(e.Args[1].Key(), grown.Key(), I) {
 					bad = "the tail is not shifted by copy(s[i+1:], s[i:]) on the grown slice: " + e.String()
 				}
 			case e.Kind == "store":
@@ -1426,6 +1426,20 @@ func insertHelperRule(ctx *Ctx, r *Result) {
 		}
 	}
 	r.check(bad == "", "R1.11", "origins.insert", p.Pos(fn.Pos()), bad, len(paths))
+}
+
+// insertTailSource: the source of the shifting copy is s[i:] of the grown
+// slice; an explicit upper bound of len(s) or len(s)-1 selects at least the
+// len(s)-1-i elements the destination s[i+1:] has room for, so the copy moves
+// the same elements.
+func insertTailSource(key, grown, i string) bool {
+	ln := "len:builtin.len(" + grown + ")"
+	for _, hi := range []string{"_", ln, "bin:-(" + ln + ", 1)"} {
+		if key == "slice("+grown+", "+i+", "+hi+", _)" {
+			return true
+		}
+	}
+	return false
 }
 
 // patternOwnership: who may write the fields of origins.Pattern and
